@@ -309,6 +309,15 @@ let judge0 op args got =
           else judge_log2_value ~cls:("fbig" ^ Zar.to_string base) sg bp got
       | t -> fail ("unknown-log2b-type-" ^ t))
   (* ---------------------------------------------------------------- floats *)
+  | "fcmp" ->
+      (* exact comparison of s1 * b^e1 with s2 * b^e2 on integers; both call directions must answer it *)
+      let b = n 0 in
+      let s1 = a 2 and e1 = a 3 and s2 = a 4 and e2 = a 5 in
+      let m = Zar.min e1 e2 in
+      let v1 = Zar.mul s1 (Zar.pow b (Zar.to_int (Zar.sub e1 m))) and v2 = Zar.mul s2 (Zar.pow b (Zar.to_int (Zar.sub e2 m))) in
+      let c = Zar.compare v1 v2 in
+      let w x = if x < 0 then "lt" else if x > 0 then "gt" else "eq" in
+      expect ~nt:true ("ok " ^ w c ^ " " ^ w (-c)) got
   | "fadd" | "fsub" | "fmul" | "fdiv" | "fsqrt" ->
       let b = n 0 and m = mode_of (arg 1) and p = n 2 in
       let x1 = frac b (a 3) (a 4) in
